@@ -120,6 +120,8 @@ pub struct Report {
     pub steps: usize,
     /// records the engine reported for the direct upstreams when a job was started
     pub inputs_seen: BTreeMap<String, BTreeMap<String, Option<String>>>,
+    /// the world's value of every consumed name when the job was started
+    pub consumed_seen: BTreeMap<String, BTreeMap<String, String>>,
     /// job -> observation index of first offer
     pub first_offer: BTreeMap<String, usize>,
     pub bad_since: BTreeMap<String, usize>,
@@ -592,6 +594,7 @@ impl<'a> Drv<'a> {
         let me = self.g.node(j).unwrap();
         let mut inputs = Vec::new();
         let mut seen: BTreeMap<String, Option<String>> = BTreeMap::new();
+        let mut consumed_now: BTreeMap<String, String> = BTreeMap::new();
         let mut ondemand = 0usize;
         for e in self.g.ups(j) {
             let ukind = self.kinds[&e.up];
@@ -622,8 +625,10 @@ impl<'a> Drv<'a> {
                         JobKind::Always => w.mem.get(name).cloned(),
                     }
                 };
+                let val = val.unwrap_or_else(|| "MISSING".to_string());
+                consumed_now.insert(name.clone(), val.clone());
                 if used(name, &me.base) {
-                    inputs.push((name.clone(), val.unwrap_or_else(|| "MISSING".to_string())));
+                    inputs.push((name.clone(), val));
                 }
             }
         }
@@ -632,6 +637,7 @@ impl<'a> Drv<'a> {
         if self.call(format!("start {}", j), |ev| ev.event_now_running(&jj)).is_ok() {
             self.rep.started.push(jj.clone());
             self.rep.inputs_seen.insert(jj.clone(), seen);
+            self.rep.consumed_seen.insert(jj.clone(), consumed_now);
             self.running.insert(jj.clone(), inputs);
             self.start_order.push(jj);
             if ondemand >= 1 {
@@ -783,6 +789,25 @@ impl<'a> Drv<'a> {
                         viol!(self, "C17", "offered-finished", self.kc(j), "{} still reported ready to run after the abort although it is finished ({})", j, js.state);
                     }
                 }
+            }
+        }
+        // C13: a cleanup that was offered and not yet acknowledged stays offered across the abort
+        {
+            let cl: BTreeSet<String> = self.ev.query_ready_for_cleanup().into_iter().collect();
+            let pending: Vec<String> = self.prev_cleanup.iter().filter(|j| !self.rep.cleanup_acked.contains(*j)).cloned().collect();
+            for j in pending {
+                if !cl.contains(&j) {
+                    viol!(self, "C13", "cleanup-offer-withdrawn", "at-abort", "cleanup offer of {} withdrawn by the abort without acknowledgement", j);
+                }
+            }
+            for j in &cl {
+                if !self.prev_cleanup.contains(j) {
+                    viol!(self, "C13", "cleanup-offered-by-abort", "", "cleanup of {} newly offered by the abort", j);
+                }
+            }
+            // acknowledging them afterwards is legal
+            for j in cl {
+                self.do_cleanup(&j);
             }
         }
         // the driver's running set is empty now, but running_at_abort jobs were never reported: skip the
